@@ -12,7 +12,7 @@
    zones with daylight saving (the model has fixed-offset zones only). *)
 From Coq Require Import String Ascii.
 From Coq Require Import List ZArith.
-From Formula Require Import Gen.Effects Conc.Footprint Sem.Value Sem.Builtins Sem.Clock Sem.Eval Proofs.BuiltinDateFacts Proofs.ClockFacts.
+From Formula Require Import Gen.Effects Conc.Footprint Sem.Value Sem.Builtins Sem.TimeFormat Sem.Clock Sem.Eval Proofs.BuiltinDateFacts Proofs.ClockFacts Proofs.TimeFormatFacts.
 Local Open Scope Z_scope.
 
 (* ---- the reference calendar, spelled out ---- *)
@@ -214,6 +214,91 @@ Theorem toDay_example :
   t_hour (mkTime 1699986600000000000 19800) = 0 /\ t_day (mkTime 1699986600000000000 19800) = 15.
 Proof. exact today_example. Qed.
 
+(* ---- timeFormat renders a time in the given layout: Sem/TimeFormat.v models Go's layout language (the chunker
+   of time.nextStdChunk and the rendering of every layout element from the civil fields of the time in its own
+   zone).  [time_format t layout] = None only for the zone ABBREVIATION ("MST"), which the model's times (an instant
+   and an offset) do not carry ---- *)
+
+Theorem timeFormat_is_time_format : forall off t s,
+  builtin_apply off (str "timeFormat") [VTime t; VStr s] =
+  match time_format t s with Some r => Ok (VStr r) | None => Unk end.
+Proof. exact BuiltinDateFacts.ba_timeFormat. Qed.
+
+(* every round of the formatter consumes at least one byte of the layout: it terminates, whatever the layout *)
+Theorem layout_chunk_shrinks : forall l p s r, next_chunk l = (p, Some s, r) -> (length r < length l)%nat.
+Proof. exact TimeFormatFacts.next_chunk_shrinks. Qed.
+Theorem format_fuel_enough : forall t f l, (length l < f)%nat -> format_fuel f t l = time_format t l.
+Proof. exact TimeFormatFacts.format_fuel_enough. Qed.
+
+(* a layout in which "MST" does not occur always has a rendering *)
+Theorem time_format_total : forall t l, (forall i, pre "MST" (skipn i l) = false) -> exists s, time_format t l = Some s.
+Proof. exact TimeFormatFacts.time_format_total. Qed.
+Theorem time_format_mst_unmodelled : forall t, time_format t (str "MST") = None.
+Proof. exact TimeFormatFacts.time_format_mst_unmodelled. Qed.
+
+(* text without any layout character (J M 0 1 2 _ 3 4 5 P p - Z . ,) is copied unchanged *)
+Theorem time_format_plain : forall t l, forallb (fun b => negb (trigger b)) l = true -> time_format t l = Some l.
+Proof. exact TimeFormatFacts.time_format_plain. Qed.
+
+(* the common layouts, as equations over the civil fields ([append_int x w]: x in decimal, zero-padded to w digits) *)
+Theorem append_int_2 : forall x, 0 <= x < 100 -> append_int x 2 = [48 + x / 10; 48 + x mod 10].
+Proof. exact TimeFormatFacts.append_int_2. Qed.
+Theorem append_int_4 : forall x, 0 <= x <= 9999 ->
+  append_int x 4 = [48 + x / 1000; 48 + (x / 100) mod 10; 48 + (x / 10) mod 10; 48 + x mod 10].
+Proof. exact TimeFormatFacts.append_int_4. Qed.
+Theorem format_iso_date : forall t, time_format t (str "2006-01-02") =
+  Some (append_int (t_year t) 4 ++ [45] ++ append_int (t_month t) 2 ++ [45] ++ append_int (t_day t) 2).
+Proof. exact TimeFormatFacts.format_iso_date. Qed.
+Theorem format_clock : forall t, time_format t (str "15:04:05") =
+  Some (append_int (t_hour t) 2 ++ [58] ++ append_int (t_minute t) 2 ++ [58] ++ append_int (t_second t) 2).
+Proof. exact TimeFormatFacts.format_clock. Qed.
+Theorem format_rfc3339_utc : forall t, t_off t = 0 -> time_format t (str "2006-01-02T15:04:05Z07:00") =
+  Some (append_int (t_year t) 4 ++ [45] ++ append_int (t_month t) 2 ++ [45] ++ append_int (t_day t) 2 ++ [84] ++
+        append_int (t_hour t) 2 ++ [58] ++ append_int (t_minute t) 2 ++ [58] ++ append_int (t_second t) 2 ++ [90]).
+Proof. exact TimeFormatFacts.format_rfc3339_utc. Qed.
+
+(* end to end with the calendar: the text of "2006-01-02" for the date built from a valid y-m-d (in any zone) is that
+   civil date, zero-padded *)
+Theorem format_date_of_valid_date : forall y m d off, valid_date y m d = true -> 0 <= y <= 9999 ->
+  time_format (go_date y m d 0 0 0 0 off) (str "2006-01-02") =
+  Some ([48 + y / 1000; 48 + (y / 100) mod 10; 48 + (y / 10) mod 10; 48 + y mod 10] ++ [45] ++
+        [48 + m / 10; 48 + m mod 10] ++ [45] ++ [48 + d / 10; 48 + d mod 10]).
+Proof. exact TimeFormatFacts.format_date_of_valid_date. Qed.
+
+(* 30 outputs of Go's own Time.Format (three times x ten layouts: every element, near misses, odd offsets) *)
+Example go_format_reference :
+  time_format (mkTime 1707102429012345600 19800) (str "2006-01-02T15:04:05Z07:00") = Some (str "2024-02-05T08:37:09+05:30") /\
+  time_format (mkTime 1707102429012345600 19800) (str "Mon, 02 Jan 2006 15:04:05 -0700") = Some (str "Mon, 05 Feb 2024 08:37:09 +0530") /\
+  time_format (mkTime 1707102429012345600 19800) (str "Monday, 02-Jan-06 3:04:05.000PM") = Some (str "Monday, 05-Feb-24 8:37:09.012AM") /\
+  time_format (mkTime 1707102429012345600 19800) (str "Jan _2 15:04:05.999999999") = Some (str "Feb  5 08:37:09.0123456") /\
+  time_format (mkTime 1707102429012345600 19800) (str "002 __2 _2006 1/2/06") = Some (str "036  36 _2024 2/5/24") /\
+  time_format (mkTime 1707102429012345600 19800) (str "January Janet Month Monday") = Some (str "February Janet Month Monday") /\
+  time_format (mkTime 1707102429012345600 19800) (str "Z070000 -07:00:00 -07 Z07") = Some (str "+053000 +05:30:00 +05 +05") /\
+  time_format (mkTime 1707102429012345600 19800) (str "05,000000 .00x .0000000000") = Some (str "09,012345 .01x .012345600") /\
+  time_format (mkTime 1707102429012345600 19800) (str "3:4:5 pm PM") = Some (str "8:37:9 am AM") /\
+  time_format (mkTime 1707102429012345600 19800) (str "no digits here") = Some (str "no digits here") /\
+  time_format (mkTime (-1) 0) (str "2006-01-02T15:04:05Z07:00") = Some (str "1969-12-31T23:59:59Z") /\
+  time_format (mkTime (-1) 0) (str "Mon, 02 Jan 2006 15:04:05 -0700") = Some (str "Wed, 31 Dec 1969 23:59:59 +0000") /\
+  time_format (mkTime (-1) 0) (str "Monday, 02-Jan-06 3:04:05.000PM") = Some (str "Wednesday, 31-Dec-69 11:59:59.999PM") /\
+  time_format (mkTime (-1) 0) (str "Jan _2 15:04:05.999999999") = Some (str "Dec 31 23:59:59.999999999") /\
+  time_format (mkTime (-1) 0) (str "002 __2 _2006 1/2/06") = Some (str "365 365 _1969 12/31/69") /\
+  time_format (mkTime (-1) 0) (str "January Janet Month Monday") = Some (str "December Janet Month Wednesday") /\
+  time_format (mkTime (-1) 0) (str "Z070000 -07:00:00 -07 Z07") = Some (str "Z +00:00:00 +00 Z") /\
+  time_format (mkTime (-1) 0) (str "05,000000 .00x .0000000000") = Some (str "59,999999 .99x .999999999") /\
+  time_format (mkTime (-1) 0) (str "3:4:5 pm PM") = Some (str "11:59:59 pm PM") /\
+  time_format (mkTime (-1) 0) (str "no digits here") = Some (str "no digits here") /\
+  time_format (mkTime 1709164800000000000 (-90)) (str "2006-01-02T15:04:05Z07:00") = Some (str "2024-02-28T23:58:30-00:01") /\
+  time_format (mkTime 1709164800000000000 (-90)) (str "Mon, 02 Jan 2006 15:04:05 -0700") = Some (str "Wed, 28 Feb 2024 23:58:30 -0001") /\
+  time_format (mkTime 1709164800000000000 (-90)) (str "Monday, 02-Jan-06 3:04:05.000PM") = Some (str "Wednesday, 28-Feb-24 11:58:30.000PM") /\
+  time_format (mkTime 1709164800000000000 (-90)) (str "Jan _2 15:04:05.999999999") = Some (str "Feb 28 23:58:30") /\
+  time_format (mkTime 1709164800000000000 (-90)) (str "002 __2 _2006 1/2/06") = Some (str "059  59 _2024 2/28/24") /\
+  time_format (mkTime 1709164800000000000 (-90)) (str "January Janet Month Monday") = Some (str "February Janet Month Wednesday") /\
+  time_format (mkTime 1709164800000000000 (-90)) (str "Z070000 -07:00:00 -07 Z07") = Some (str "-000130 -00:01:30 -00 -00") /\
+  time_format (mkTime 1709164800000000000 (-90)) (str "05,000000 .00x .0000000000") = Some (str "30,000000 .00x .000000000") /\
+  time_format (mkTime 1709164800000000000 (-90)) (str "3:4:5 pm PM") = Some (str "11:58:30 pm PM") /\
+  time_format (mkTime 1709164800000000000 (-90)) (str "no digits here") = Some (str "no digits here").
+Proof. exact TimeFormatFacts.go_format_reference. Qed.
+
 (* ---- now / toDay inside a formula: the evaluator model has no clock (Unk), the clock
    model above is compared with the implementation separately ---- *)
 
@@ -251,3 +336,16 @@ Print Assumptions useTimezone_unknown_zone.
 Print Assumptions useTimezone_local_time.
 Print Assumptions useTimezone_examples.
 Print Assumptions clock_not_modelled.
+Print Assumptions timeFormat_is_time_format.
+Print Assumptions layout_chunk_shrinks.
+Print Assumptions format_fuel_enough.
+Print Assumptions time_format_total.
+Print Assumptions time_format_mst_unmodelled.
+Print Assumptions time_format_plain.
+Print Assumptions append_int_2.
+Print Assumptions append_int_4.
+Print Assumptions format_iso_date.
+Print Assumptions format_clock.
+Print Assumptions format_rfc3339_utc.
+Print Assumptions format_date_of_valid_date.
+Print Assumptions go_format_reference.
